@@ -1151,3 +1151,15 @@ Proof.
   intros Hp Ht Ho Hb Hord Hf. rewrite (rt_is_nrt_in_that_order gen off p t0 sched); auto.
   unfold obs_nrt, xnrt_follow. rewrite Hord. rewrite follow_order. reflexivity.
 Qed.
+
+(* the observation of a real-time execution depends on the oracle ONLY through the order of the wake-ups: not on the start
+   instant, the timetag offset or the physical clock readings *)
+Lemma rt_depends_only_on_order gen off1 off2 p t1 t2 s1 s2 : prog_ok2 p ->
+  0 <= t1 -> 0 <= t2 -> (0 <= off1)%Z -> (0 <= off2)%Z ->
+  xs_bad (xrt_run gen off1 p t1 s1) = false -> xs_bad (xrt_run gen off2 p t2 s2) = false ->
+  map fst s1 = map fst s2 -> snd (xnrt_follow gen p (map fst s1)) = true ->
+  obs_rt gen off1 p t1 s1 = obs_rt gen off2 p t2 s2.
+Proof.
+  intros Hp H1 H2 O1 O2 B1 B2 E F.
+  rewrite (rt_is_nrt_in_that_order gen off1 p t1 s1), (rt_is_nrt_in_that_order gen off2 p t2 s2); auto; rewrite <- E; auto.
+Qed.
